@@ -13,7 +13,7 @@
     Termination under HAP is proved only on the bounded in-kernel grid (lists of length <= 3 over {0, 1}). *)
 From Coq Require Import List. Import ListNotations.
 From LC Require Import Spec.Encodings Spec.Confluence Spec.NorEval Model.Reduction Model.Convert Gen.Terms
-  Proofs.Sound Proofs.ReduceProps Proofs.Normalise Proofs.Convert Proofs.ChurchArith Proofs.PairList Proofs.OtherLists.
+  Proofs.Sound Proofs.ReduceProps Proofs.Normalise Proofs.Convert Proofs.ChurchArith Proofs.PairList Proofs.OtherLists Proofs.Returns.
 
 (** (1) constructors and observers, on encoded lists *)
 Theorem C16_pair_basic : forall x r, closed x = true -> allc r ->
@@ -176,6 +176,62 @@ Proof. exact nor_normalises. Qed.
 Theorem C16_hno_returns : forall t v, red t v -> nfb v = true -> exists fuel c, reduce_m fuel HNO 0 t = Some (v, c).
 Proof. exact hno_reduce_normalises. Qed.
 
+(** the property as stated: what [reduce] returns under the two normalising orders, for ALL lists of numerals *)
+Theorem C16_reduce_returns : forall o l l2 k v, lazy o ->
+  returns o (App lc_list_pair_length (nums l)) (church (length l)) /\
+  returns o (App lc_list_pair_reverse (nums l)) (nums (rev l)) /\
+  returns o (App (App lc_list_pair_append (nums l)) (nums l2)) (nums (l ++ l2)) /\
+  returns o (App lc_list_pair_init (nums l)) (nums (removelast l)) /\
+  (l <> [] -> returns o (App lc_list_pair_last (nums l)) (church (last l 0))) /\
+  (k < length l -> returns o (App (App lc_list_pair_index (church k)) (nums l)) (church (nth k l 0))) /\
+  returns o (App (App lc_list_pair_take (church k)) (nums l)) (nums (firstn k l)) /\
+  returns o (App (App lc_list_pair_drop (church k)) (nums l)) (nums (skipn k l)) /\
+  returns o (App (App lc_list_pair_replicate (church k)) (church v)) (nums (repeat v k)) /\
+  returns o (fold_left App (map church l) (App lc_list_pair_list (church (length l)))) (nums l) /\
+  returns o (App (App lc_list_pair_zip (nums l)) (nums l2))
+            (pair_list (map (fun p => pair_t (church (fst p)) (church (snd p))) (combine l l2))) /\
+  returns o (App (App lc_list_pair_map lc_num_church_succ) (nums l)) (nums (map S l)) /\
+  returns o (App (App lc_list_pair_filter lc_num_church_is_zero) (nums l)) (nums (filter (fun k => k =? 0) l)) /\
+  returns o (App (App (App lc_list_pair_foldl lc_num_church_add) (church 1)) (nums l)) (church (fold_left Nat.add l 1)).
+Proof.
+  intros o l l2 k v L.
+  pose proof (allc_nums l) as Hl. pose proof (allc_nums l2) as Hl2.
+  destruct (C16_numeral_instances l) as (I1 & I2 & I3 & I4 & I5).
+  assert (NN : forall x, nfb (nums x) = true) by apply C16_lists_normal.
+  assert (E_init : map church (removelast l) = removelast (map church l)).
+  { clear. induction l as [|a [|b r] IH]; auto.
+    change (removelast (map church (a :: b :: r))) with (church a :: removelast (map church (b :: r))).
+    rewrite <- IH. reflexivity. }
+  assert (E_zip : map (fun p => pair_t (church (fst p)) (church (snd p))) (combine l l2) =
+                  map (fun p => pair_t (fst p) (snd p)) (combine (map church l) (map church l2))).
+  { clear. revert l2. induction l as [|a r IH]; intros [|b s]; cbn [map combine fst snd]; auto. rewrite IH. reflexivity. }
+  assert (N_zip : nfb (pair_list (map (fun p => pair_t (church (fst p)) (church (snd p))) (combine l l2))) = true).
+  { clear. revert l2. induction l as [|a r IH]; intros [|b s]; cbn [map combine pair_list fst snd]; auto.
+    cbn [nfb is_abs negb andb]. rewrite pair_nf by apply church_nf. rewrite IH. reflexivity. }
+  repeat split.
+  - apply (lazy_returns o); auto. apply church_nf.
+  - apply (lazy_returns o); auto.
+  - apply (lazy_returns o); auto. unfold nums. rewrite map_app. apply pair_append; auto.
+  - apply (lazy_returns o); auto. unfold nums. rewrite E_init. apply pair_init; auto.
+  - intros NE. apply (lazy_returns o); auto; [|apply church_nf].
+    replace (church (last l 0)) with (last (map church l) lc_list_pair_nil); [apply pair_last; auto|].
+    clear - NE. induction l as [|a [|b r] IH]; [congruence|reflexivity|].
+    change (last (map church (a :: b :: r)) lc_list_pair_nil) with (last (map church (b :: r)) lc_list_pair_nil).
+    rewrite IH by discriminate. reflexivity.
+  - intros Hk. apply (lazy_returns o); auto; [|apply church_nf].
+    rewrite <- (map_nth church l 0 k). apply pair_index; auto. rewrite map_length. exact Hk.
+  - apply (lazy_returns o); auto. unfold nums. rewrite <- firstn_map. apply pair_take; auto.
+  - apply (lazy_returns o); auto. unfold nums. rewrite <- skipn_map. apply pair_drop; auto.
+  - apply (lazy_returns o); auto. unfold nums.
+    replace (map church (repeat v k)) with (repeat (church v) k) by (clear; induction k; cbn [repeat map]; congruence).
+    apply pair_replicate. apply church_closed.
+  - apply (lazy_returns o); auto. rewrite <- (map_length church l). apply pair_list_collect; auto.
+  - apply (lazy_returns o); auto. rewrite E_zip. apply pair_zip; auto.
+  - apply (lazy_returns o); auto.
+  - apply (lazy_returns o); auto.
+  - apply (lazy_returns o); auto. apply church_nf.
+Qed.
+
 Print Assumptions C16_pair_basic.
 Print Assumptions C16_church_basic.
 Print Assumptions C16_scott_basic.
@@ -188,3 +244,4 @@ Print Assumptions C16_numeral_instances.
 Print Assumptions C16_lists_normal.
 Print Assumptions C16_nor_returns.
 Print Assumptions C16_hno_returns.
+Print Assumptions C16_reduce_returns.
